@@ -106,7 +106,7 @@ class Monitor:
         self.first_commit_seen = False
         self.leader_changes_after_commit = 0
         self.terms_with_leader = set()
-        self.divergent_longer_follower = False
+        self.longer_peer = False     # some node became leader while a peer held a longer log
         self.n_deliver = 0
         self.n_crashed_drop = 0
 
@@ -279,6 +279,8 @@ class Monitor:
             ls = self.leaders.setdefault(new.term, [])
             if name not in ls:
                 ls.append(name)
+                if any(len(o.ents) > len(new.ents) for other, o in self.prev.items() if other != name):
+                    self.longer_peer = True
                 self.terms_with_leader.add(new.term)
                 if self.first_commit_seen:
                     self.leader_changes_after_commit += 1
@@ -301,9 +303,6 @@ class Monitor:
                     self.derived("log-matching",
                              f"{name} and {other} both hold an entry (index {i}, term {new.ents[i - 1][0]}) but "
                              f"differ at index {k + 1}: {new.ents[k]} vs {o.ents[k]}")
-                if (new.state == F and len(new.ents) > len(o.ents) and o.state == L and o.term >= new.term
-                        and new.ents[:len(o.ents)] != o.ents):
-                    self.divergent_longer_follower = True
         # ---- newly observed commits
         if new.commit > old.commit:
             self.first_commit_seen = True
@@ -551,8 +550,8 @@ def ex_safety(obl):
             nt.append(">=2-terms-with-leader")
         if mon.leader_changes_after_commit:
             nt.append("leader-change-after-commit")
-        if mon.divergent_longer_follower:
-            nt.append("follower-with-longer-divergent-log")
+        if mon.longer_peer:
+            nt.append("leader-elected-while-a-peer-holds-a-longer-log")
         r.nontrivial = bool(nt)
         r.labels += nt + sn.features() + [f"n={n}"]
         if not mon.terms_with_leader:
@@ -709,7 +708,7 @@ RULE_SAFETY = (
     "draws, loss bits, 0-3 partition/heal windows, 0-2 crash/restart windows (with or without re-arming the timer), up to 14 "
     "client submits to arbitrary nodes or to whoever is leader; hypothesis.target maximises (term, leader) pairs and leader "
     "changes after the first commit. Non-trivial = the history has >= 2 terms with a leader, or a leader change after >= 1 "
-    "commit, or a follower holding a longer log that diverges from the current leader's")
+    "commit, or a node becomes leader while a peer holds a longer log (a stale suffix that must be overwritten)")
 
 OBLIGATIONS = [
     Obligation("safety", safety_strategy(True), ex_safety("safety"), {"quick": 2400, "thorough": 60000}, RULE_SAFETY),
